@@ -21,10 +21,25 @@ def scenario(rng):
     # stateful libraries sK: exports (next-K) and a renamed reader
     for k in range(nstate):
         ext_peek = rng.choice(["look%d" % k, "peek%d" % k])
-        files.append("Fs%d.sld=(define-library (s%d) (import (scheme base)) (export next%d probe%d (rename peek%d %s)) "
+        # one internal binding may be exported under SEVERAL external names (plainly and renamed, or renamed twice);
+        # the export specs come in any order, in one or two export declarations
+        specs = ["next%d" % k, "probe%d" % k, "(rename peek%d %s)" % (k, ext_peek)]
+        step = None
+        if rng.random() < 0.5:
+            step = "step%d" % k
+            specs.append("(rename next%d %s)" % (k, step))
+        peek_names = [ext_peek]
+        if rng.random() < 0.3:
+            other = rng.choice([n for n in ("look%d" % k, "peek%d" % k, "read%d" % k) if n != ext_peek])
+            specs.append("peek%d" % k if other == "peek%d" % k else "(rename peek%d %s)" % (k, other))
+            peek_names.append(other)
+        rng.shuffle(specs)
+        cut = rng.choice([len(specs), len(specs), rng.randrange(1, len(specs))])
+        exports = "(export %s)" % " ".join(specs[:cut]) + (" (export %s)" % " ".join(specs[cut:]) if cut < len(specs) else "")
+        files.append("Fs%d.sld=(define-library (s%d) (import (scheme base)) %s "
                      "(begin (define n 0) (define (helper) (quote hidden%d)) (define (next%d) (set! n (+ n 1)) n) "
-                     "(define (peek%d) n) (define (probe%d) importer-secret)))" % (k, k, k, k, k, ext_peek, k, k, k, k))
-        libs["s%d" % k] = {"peek": ext_peek}
+                     "(define (peek%d) n) (define (probe%d) importer-secret)))" % (k, k, exports, k, k, k, k))
+        libs["s%d" % k] = {"peek": ext_peek, "peeks": peek_names, "step": step}
     # wrapper libraries wJ importing some state libs (and earlier wrappers), exporting bumpers
     nwrap = rng.randrange(0, 3)
     wrappers = []
@@ -48,7 +63,12 @@ def scenario(rng):
     helper_defined = False
     for _ in range(rng.randrange(6, 20)):
         op = rng.random()
-        if op < 0.3 and imported_direct:
+        if op < 0.12 and imported_direct and any(libs["s%d" % k]["step"] for k in imported_direct):
+            # the second external name of the counter: the same binding, untouched by the importer's redefinition of the first
+            k = rng.choice([k for k in imported_direct if libs["s%d" % k]["step"]])
+            count[k] += 1
+            forms.append("(%s)" % libs["s%d" % k]["step"]); expect.append("V i:%d" % count[k])
+        elif op < 0.3 and imported_direct:
             k = rng.choice(imported_direct)
             if ("next", k) in redefined:
                 forms.append("(next%d)" % k); expect.append("V y:mine")
@@ -61,11 +81,11 @@ def scenario(rng):
             forms.append("(bump%d)" % j); expect.append("V i:%d" % count[t])
         elif op < 0.65 and imported_direct:
             k = rng.choice(imported_direct)
-            forms.append("(%s)" % libs["s%d" % k]["peek"]); expect.append("V i:%d" % count[k])
+            forms.append("(%s)" % rng.choice(libs["s%d" % k]["peeks"])); expect.append("V i:%d" % count[k])
         elif op < 0.72:
             k = rng.randrange(nstate)
             which = rng.choice(["helper", "peek", "probe"])
-            if which == "helper" or (which == "peek" and libs["s%d" % k]["peek"] == "peek%d" % k) or \
+            if which == "helper" or (which == "peek" and "peek%d" % k in libs["s%d" % k]["peeks"]) or \
                (which == "probe" and k not in imported_direct):
                 forms.append("helper"); expect.append("V <proc>" if helper_defined else "E unbound")
             elif which == "peek":
@@ -118,7 +138,7 @@ def run(rep, tier, rng):
 def main(tier, seed):
     rep = C.Report(PROP, tier, seed)
     rng = random.Random(seed)
-    rep.cov["rule"] = ("random scenarios: 1-2 stateful counter libraries (exports with and without rename, unexported helper, a "
+    rep.cov["rule"] = ("random scenarios: 1-2 stateful counter libraries (exports with and without rename, one binding under several external names, specs in any order over one or two export declarations, unexported helper, a "
                        "procedure that refers to an importer variable), 0-2 wrapper libraries importing them directly or through "
                        "another wrapper, an importing program of 6-20 forms that calls, reads, redefines imported names and "
                        "defines colliding names; as files under a program directory; distinct = distinct scenarios")
